@@ -182,6 +182,7 @@ func (c05) Generate(r *core.Rng, run int, tier string) *core.History {
 	ref.NoReg = true // reference configuration: registers off
 	g := gen.New(r.Sub("gen"), flags)
 	bg := newBaseGen(g, ref)
+	bg.AddFixed([]string{"func div9(a9, b9) { a9 / b9 }"})
 	n := 4 + kr.Intn(10)
 	fr := r.Sub("faults")
 	for i := 0; i < n; i++ {
@@ -217,7 +218,7 @@ func (c05) Generate(r *core.Rng, run int, tier string) *core.History {
 func topLoop(r *core.Rng) string {
 	v := fmt.Sprintf("lv%d", 500+r.Intn(400))
 	n := 2 + r.Intn(4)
-	switch r.Intn(5) {
+	switch r.Intn(7) {
 	case 0:
 		return fmt.Sprintf("for %s = %d { println(\"L\", %s) }", v, n, v)
 	case 1:
@@ -226,8 +227,13 @@ func topLoop(r *core.Rng) string {
 		return fmt.Sprintf("for %s = %d { if %s == 0 { continue }; println(\"L\", %s) }", v, n, v, v)
 	case 3:
 		return fmt.Sprintf("for %s = 1:%d { for lv499 = 2 { if lv499 == 1 { break }; println(%s, lv499) } }", v, n+1, v)
-	default:
+	case 4:
 		return fmt.Sprintf("catch((() => { for %s = %d { if %s == 1 { error(\"x\") } } })())", v, n, v)
+	case 5:
+		// a Go runtime panic unwinding out of a callee through the loop (both modes must report the same failure)
+		return fmt.Sprintf("for %s = %d { println(div9(6, 2 - %s)) }", v, n+1, v)
+	default:
+		return fmt.Sprintf("println(for %s = %d { %s })", v, n, v)
 	}
 }
 
